@@ -230,7 +230,7 @@ func TestC07(t *testing.T) {
 			c.check(g.part, &appencryption.DataRowRecord{}, "zero-record", func() string { return "zero DataRowRecord" })
 		}
 		// 6. random JSON documents
-		nj := ev.Pick(2000, 100000)
+		nj := ev.Pick(2000, 1500000)
 		g0 := c.corpus[0]
 		base, _ := json.Marshal(g0.drr)
 		for i := 0; i < nj; i++ {
